@@ -26,7 +26,7 @@ def queries():
             q.checks = False
             q.cbmc = ["--slice-formula"]
             q.timeout = 420
-            if q.name.startswith("multiple"):
+            if q.name.startswith("multiple") or q.name == "address-2":
                 q.tier = "thorough"; q.timeout = 1700
     for q in _q({}, "-mem"):
         if q.name != "position-getter-mem":
